@@ -8,6 +8,11 @@ NOT_APPLICABLE = {
     'C03': 'C++ exception capture/transport/rethrow: CBMC\'s usable front end here is C, extraction drops try/catch, so no contract can mention the behaviour (DESIGN.md §6)',
 }
 CLAIMS = {
+    'C15': {
+        'technique': 'rely/guarantee over lock-protected sections (each scoped_lock section of limiter_node is one atomic step between arbitrary interference preserving a ghost accounting invariant) + loop-free contracts on sequencer_node::internal_push and the item_buffer methods it uses, all sliced from flow_graph.h',
+        'text': 'limiter_node: for any number of threads putting, forwarding and decrementing, the counters account exactly for delivered-minus-decremented messages and that number never exceeds the threshold; every registered try is settled. sequencer_node: a tag below head or an occupied tag is rejected, an accepted item sits at its own tag inside [head,tail) and no other parked item changes (F5: tag SIZE_MAX is a KNOWN-FINDING).',
+        'note': 'Trusted: my_mutex serialises the sections (C08), successor/predecessor caches as nondeterministic stubs, grow_my_array as a contract stub. Preconditions: 0 < decrement <= delivered-and-not-decremented. Not decided: join_node, queue/priority ordering, other node types, port interleavings.',
+    },
     'C07': {
         'technique': 'CBMC function contracts + loop contracts (dfcc) on input_buffer sliced from src/tbb/parallel_pipeline.cpp; modular proof of try_put_token against grow\'s proved contract; ghost-token (Skolem) representation invariant',
         'text': 'For every buffer size up to 2^16 and every token: grow keeps each parked item in the slot of its own token and leaves no stale valid slot; try_put_token assigns a token once, lets the caller run the item iff it carries the lowest outstanding token, otherwise parks it unmodified inside the window without touching any other parked item; try_to_spawn_task_for_next_token advances low_token by one, releases exactly the item parked under the new low_token (ordered stages: in token order), once.',
